@@ -248,6 +248,9 @@ func VH_C15_slice() {
 	} else if info.isSlice {
 		vCover("is-slice")
 		vAssert(len(ts) == info.n, "ToSlice-keeps-length")
+		for i := 0; i < len(info.elems) && i < len(ts); i++ {
+			vAssert(vSame(ts[i], info.elems[i]), "ToSlice-keeps-elements-in-order")
+		}
 	} else {
 		vCover("non-slice")
 		vAssert(len(ts) == 1 && vSame(ts[0], v), "ToSlice-wraps-a-single-value")
